@@ -13,7 +13,7 @@ COMMON_ASSUMPTIONS = [
     "fmt.Errorf/Sprintf are intrinsics (message text opaque, %w operand kept); reflect.TypeOf/New/ValueOf/Elem/Interface/Set/DeepEqual are intrinsics over engine values; sync.Mutex/WaitGroup/Once, channels and goroutines run under the engine scheduler",
     "encoding/json (default marshaler) and the golang-lru ARC cache are not executed; harness marshalers (8-byte fixed width) and harness caches stand in",
     "unless a run says sched, goroutines in flush follow one deterministic schedule",
-    "solver: z3 4.8.12 over a pipe (QF_BV terms, no set-logic), per-query timeout, z3 5.1.0 one-shot fallback on unknown; any (error answer is treated as inconclusive",
+    "solver: z3 4.8.12 over a pipe (QF_BV terms, no set-logic), per-query timeout, z3 5.1.0 one-shot fallback on unknown; any (error answer is treated as inconclusive; on a sample of paths every query (feasibility, assertion, classification) is re-decided by z3 5.1.0 and cvc5 1.0 and a differing answer fails the run as an engine error (counts in coverage.solver.cross_*)",
 ]
 
 FILEPKG = {"pkgs": "./persist/file", "overlays": ["harness/persist_file=persist/file"], "pkgdir": "persist/file", "harness_dirs": ["harness/persist_file"], "sample_every": 1, "validate": 300}
